@@ -53,7 +53,7 @@ class ListLogger:
 class C11(Check):
     ID = 'C11'
     TRACE_FILES = ('client/__init__.py',)
-    TIERS = {'quick': {'runs': 9000, 'wall': 90}, 'thorough': {'runs': 400000, 'wall': 840}}
+    TIERS = {'quick': {'runs': 20000, 'wall': 100}, 'thorough': {'runs': 400000, 'wall': 840}}
     RULE = ('[a fifth of the cases are focus cases: same key, same instant, immediate replies, streaming peer] ' 'case = 2..4 caller tasks x <= 6 requests each (equal/distinct keys, ping/read/change/unknown actions, '
             'unique id per request) + peer reply script (order, delays up to beyond the 10 s time-out, error replies, '
             'interleaved updates, unsolicited replies, garbage, half lines) + <= 3 faults (peer close/reset/black hole '
@@ -138,6 +138,23 @@ class C11(Check):
             shape.update(replies=[{'kind': 'ok', 'delay': delay}], activate=rng.random() < 0.5, stream=None,
                          user_disconnect=round(delay + rng.choice([-0.002, -0.0005, 0, 0.0002, 0.001, 0.005]), 4),
                          faulty=False, focus='disconnect', line_gaps=rng.choice([0, 3, 5, 8]))
+            faults = []
+        elif rng.random() < 0.12:
+            # focus: a request which is answered too late times out after 10 s - the rx thread then removes its entry at its
+            # next wake-up, while the other callers keep the tx thread busy entering new requests
+            ops = [{'task': 0, 'kind': 'ping', 'dt': 0, 'key': 'x'}]
+            for t in range(1, ncallers):
+                # (back to back: the exchange with the peer never pauses around the moment of the time-out)
+                ops.append({'task': t, 'kind': rng.choice(['ping', 'read']), 'dt': round(9.97 + rng.random() * 0.02, 4),
+                            'key': None})
+                for _ in range(rng.randrange(10, 20)):
+                    ops.append({'task': t, 'kind': rng.choice(['ping', 'read']), 'dt': rng.choice([0, 0, 0, 0.001]),
+                                'key': None})
+            for k, op in enumerate(ops[1:]):
+                op['key'] = rng.choice(['y', 'z', None, f'k{k}']) if op['kind'] == 'ping' else rng.choice(['m:_p0', 'm:_p1'])
+            shape.update(replies=[{'kind': 'ok', 'delay': 12.5}] + [{'kind': 'ok', 'delay': 0}] * 40,
+                         activate=rng.random() < 0.5, stream=None, user_disconnect=None, faulty=False, focus='cleanup',
+                         line_gaps=rng.choice([3, 5, 8, 12]))
             faults = []
         return {'shape': shape, 'ops': ops, 'faults': faults}
 
